@@ -131,6 +131,10 @@ class CallMixin:
         raise Unsupported('method %s on %s' % (name, recv.ty))
 
     def call_str(self, v, st):
+        for h in self.reg.attr_hooks:
+            r = h(self, 'str', (v,), st)
+            if r is not None:
+                return r
         if v.ty == 'obj':
             q = self.repo.resolve_method(v.a['cls'], '__str__')
             if q is None:
@@ -333,6 +337,10 @@ class CallMixin:
             return self.repo.resolve_method(v.a['cls'], nm) is not None
         if v.ty in ('int', 'none', 'bool'):
             return False
+        for h in self.reg.attr_hooks:
+            r = h(self, 'hasattr', (v, nm), None)
+            if r is not None:
+                return r
         raise Unsupported('hasattr on ' + v.ty)
 
     def entry_fields(self, v):
@@ -484,7 +492,15 @@ class CallMixin:
             if name == 'extend' and args[0].ty in ('list', 'tuple'):
                 store(VList(items + args[0].a['items']))
                 return [('val', st, VNone)]
+        if recv.ty == 'kwargs':
+            from .sorts import pystr as _ps
+            if name == 'items':
+                return [('val', st, VTuple([VTuple([VS(_ps(k)), v]) for k, v in recv.a['items'].items()]))]
+            if name == 'keys':
+                return [('val', st, VTuple([VS(_ps(k)) for k in recv.a['items']]))]
         if recv.ty == 'dict':
+            if name == 'items':
+                return [('val', st, VTuple([VTuple([k, v]) for k, v in recv.a['items']]))]
             if name == 'keys':
                 return [('val', st, VTuple([k for k, _ in recv.a['items']]))]
             if name == 'values':
